@@ -1,1 +1,3 @@
 import RoGen.Catalogue
+import RoGen.Delegation
+import RoGen.Pipe
